@@ -1,4 +1,1259 @@
-import WnVerif.Model.Lmf
+/-
+C02 — WN-LMF load/dump is a lossless round trip in every supported version.
+
+`loadTree v (dumpTree r) = .ok r` for every resource `r` in the loader's normal form that version
+`v` can express, proved bottom-up over the tree model of `wn/lmf.py` (`Model/Lmf.lean`), for
+lists of any length and any nesting.  Normal form (`NF…` below, all decidable) is what the loader
+itself produces: optional attributes absent rather than empty, flags absent rather than explicitly
+default, metadata in canonical order with non-empty values, and fields a version cannot express
+absent.  Character-level escaping (expat / the XML writer) is outside the tree model and is covered
+by the correspondence check only.
+-/
+import WnVerif.Lemmas.LmfAttr
+import WnVerif.Lemmas.Decimal
 namespace WnVerif.Props.C02
-theorem placeholder_true : True := trivial
+open WnVerif.Lmf WnVerif.Doc
+
+/-! ### generic helpers -/
+
+theorem mapM_map_ok {α β} (f : α → β) (g : β → R α) : ∀ (l : List α), (∀ a ∈ l, g (f a) = .ok a) → (l.map f).mapM g = .ok l := by
+  intro l
+  induction l with
+  | nil => intro _; rfl
+  | cons a t ih =>
+    intro h
+    rw [List.map_cons, List.mapM_cons, h a List.mem_cons_self]
+    simp only [bind, Except.bind]
+    rw [ih (fun x hx => h x (List.mem_cons_of_mem _ hx))]
+    rfl
+
+theorem map_map_id {α β} (f : α → β) (g : β → α) : ∀ (l : List α), (∀ a ∈ l, g (f a) = a) → (l.map f).map g = l := by
+  intro l h
+  rw [List.map_map]
+  conv => rhs; rw [← List.map_id l]
+  apply List.map_congr_left
+  intro a ha; exact h a ha
+
+theorem filter_map_all {α} (f : α → Xml) (names : List String) (l : List α) (h : ∀ a ∈ l, names.contains (f a).name = true) :
+    (l.map f).filter (fun c => names.contains c.name) = l.map f := by
+  rw [List.filter_eq_self]
+  intro c hc
+  obtain ⟨a, ha, rfl⟩ := List.mem_map.mp hc
+  exact h a ha
+
+theorem filter_map_none {α} (f : α → Xml) (names : List String) (l : List α) (h : ∀ a ∈ l, names.contains (f a).name = false) :
+    (l.map f).filter (fun c => names.contains c.name) = [] := by
+  rw [List.filter_eq_nil_iff]
+  intro c hc
+  obtain ⟨a, ha, rfl⟩ := List.mem_map.mp hc
+  have := h a ha
+  simpa using this
+
+theorem filter_map_none' {α} (f : α → Xml) (p : String → Bool) (l : List α) (h : ∀ a ∈ l, p (f a).name = false) :
+    (l.map f).filter (fun c => p c.name) = [] := by
+  rw [List.filter_eq_nil_iff]
+  intro c hc
+  obtain ⟨a, ha, rfl⟩ := List.mem_map.mp hc
+  simp [h a ha]
+
+theorem pk (k : String) (h : pickKey k = none) (v : String) : metaPick (k, v) = none := metaPick_nonmeta k v h
+
+/-! ### leaves -/
+
+theorem loadTag_dumpTag (t : Tag) : loadTag (dumpTag t) = .ok t := by
+  obtain ⟨text, cat⟩ := t
+  simp [loadTag, dumpTag, reqAttr, attr_elem, lookup_cons, Xml.text, bind, Except.bind, pure, Except.pure]
+
+def NFpron (p : Pron) : Prop := NFopt p.variety ∧ NFopt p.notat ∧ NFopt p.audio ∧ p.phonemic ≠ some true
+
+theorem loadPron_dumpPron (p : Pron) (h : NFpron p) : loadPron (dumpPron p) = p := by
+  obtain ⟨text, variety, notat, phonemic, audio⟩ := p
+  obtain ⟨h1, h2, h3, h4⟩ := h
+  simp only [NFopt] at *
+  unfold loadPron dumpPron
+  simp only [Xml.text]
+  cases variety <;> cases notat <;> cases audio <;> cases phonemic <;>
+    simp_all [attr, Xml.attrs, optAttr, boolAttr]
+
+theorem loadRel_dumpRel (name : String) (r : Relation) (h : NFmeta r.md) : loadRel (dumpRel name r) = .ok r := by
+  obtain ⟨t, ty, md⟩ := r
+  unfold loadRel dumpRel
+  simp only [reqAttr, attr_elem, lookup_append, lookup_cons, metaOf, Xml.attrs, List.filterMap_append, List.filterMap_cons,
+    pk "target" (by decide), pk "relType" (by decide), List.filterMap_nil, List.nil_append]
+  simp [mkMeta_filterMap_metaAttrs md h, bind, Except.bind, pure, Except.pure]
+
+def NFexample (e : Example) : Prop := NFopt e.language ∧ NFmeta e.md
+
+theorem loadExample_dumpExample (e : Example) (h : NFexample e) : loadExample (dumpExample e) = e := by
+  obtain ⟨text, language, md⟩ := e
+  obtain ⟨h1, h2⟩ := h
+  unfold loadExample dumpExample
+  simp only [attr_elem, lookup_append, lookup_metaAttrs md "language" (by decide), Option.none_or,
+    lookup_optAttr_self "language" language h1, metaOf, Xml.attrs, Xml.text, List.filterMap_append,
+    filterMap_optAttr_nonmeta "language" language (by decide), List.append_nil, mkMeta_filterMap_metaAttrs md h2]
+
+def NFcount (c : Count) : Prop := NFmeta c.md
+
+theorem loadCount_dumpCount (c : Count) (h : NFcount c) : loadCount (dumpCount c) = .ok c := by
+  obtain ⟨value, md⟩ := c
+  have h1 : NFmeta md := h
+  unfold loadCount dumpCount
+  simp only [Xml.text, String.toList_ofList, readInt_showInt, metaOf, Xml.attrs, mkMeta_filterMap_metaAttrs md h1]
+
+def NFdefinition (d : Definition) : Prop := NFopt d.language ∧ NFopt d.sourceSense ∧ NFmeta d.md
+
+theorem loadDefinition_dumpDefinition (d : Definition) (h : NFdefinition d) : loadDefinition (dumpDefinition d) = d := by
+  obtain ⟨text, language, sourceSense, md⟩ := d
+  obtain ⟨h1, h2, h3⟩ := h
+  unfold loadDefinition dumpDefinition
+  simp only [attr_elem, lookup_append, lookup_optAttr_self "language" language h1, lookup_optAttr_ne "language" "sourceSense" _ (by decide),
+    lookup_optAttr_ne "sourceSense" "language" _ (by decide), lookup_optAttr_self "sourceSense" sourceSense h2,
+    lookup_metaAttrs md "language" (by decide), lookup_metaAttrs md "sourceSense" (by decide), Option.or_none, Option.none_or,
+    metaOf, Xml.attrs, Xml.text, List.filterMap_append,
+    filterMap_optAttr_nonmeta "language" language (by decide), filterMap_optAttr_nonmeta "sourceSense" sourceSense (by decide),
+    List.nil_append, mkMeta_filterMap_metaAttrs md h3]
+
+def NFdep (d : Dep) : Prop := NFopt d.url
+
+theorem loadDep_dumpDep (name : String) (d : Dep) (h : NFdep d) : loadDep (dumpDep name d) = .ok d := by
+  obtain ⟨id, version, url⟩ := d
+  unfold loadDep dumpDep
+  simp only [reqAttr, attr_elem, lookup_append, lookup_cons]
+  simp [lookup_optAttr_self "url" url h, bind, Except.bind, pure, Except.pure]
+
+/-! ### lemma and forms -/
+
+theorem name_elem (n : String) (a : List (String × String)) (t : String) (c : List Xml) : (Xml.elem n a t c).name = n := rfl
+theorem children_elem (n : String) (a : List (String × String)) (t : String) (c : List Xml) : (Xml.elem n a t c).children = c := rfl
+
+theorem pronTagKids_tags (v : String) (ps : List Pron) (ts : List Tag) :
+    (pronTagKids v ps ts).filter (fun c => ["Tag"].contains c.name) = ts.map dumpTag := by
+  unfold pronTagKids
+  rw [List.filter_append, filter_map_all dumpTag ["Tag"] ts (fun _ _ => by rfl)]
+  cases atLeast11 v
+  · simp
+  · simp only [if_true]
+    rw [filter_map_none dumpPron ["Tag"] ps (fun _ _ => by rfl)]; rfl
+
+theorem pronTagKids_prons (v : String) (ps : List Pron) (ts : List Tag) (h : atLeast11 v = false → ps = []) :
+    (pronTagKids v ps ts).filter (fun c => ["Pronunciation"].contains c.name) = ps.map dumpPron := by
+  unfold pronTagKids
+  rw [List.filter_append, filter_map_none dumpTag ["Pronunciation"] ts (fun _ _ => by rfl)]
+  cases hb : atLeast11 v
+  · simp [h hb]
+  · simp only [if_true, List.append_nil]
+    exact filter_map_all dumpPron ["Pronunciation"] ps (fun _ _ => by rfl)
+
+theorem tags_roundtrip (ts : List Tag) : (ts.map dumpTag).mapM loadTag = .ok ts :=
+  mapM_map_ok dumpTag loadTag ts (fun t _ => loadTag_dumpTag t)
+
+theorem prons_roundtrip (ps : List Pron) (h : ∀ p ∈ ps, NFpron p) : (ps.map dumpPron).map loadPron = ps :=
+  map_map_id dumpPron loadPron ps (fun p hp => loadPron_dumpPron p (h p hp))
+
+def NFlemma (v : String) (l : Lemma) : Prop :=
+  (∀ p ∈ l.prons, NFpron p) ∧ (atLeast11 v = false → l.prons = []) ∧
+  (if l.external then l.form = "" ∧ l.pos = "" ∧ l.script = none else NFopt l.script)
+
+theorem loadLemma_dumpLemma (v : String) (l : Lemma) (h : NFlemma v l) : loadLemma (dumpLemma v l) = .ok l := by
+  obtain ⟨ext, form, pos, script, prons, tags⟩ := l
+  obtain ⟨h1, h2, h3⟩ := h
+  simp only at h1 h2 h3
+  unfold dumpLemma
+  simp only
+  cases ext with
+  | true =>
+    simp only [if_true] at h3 ⊢
+    obtain ⟨rfl, rfl, rfl⟩ := h3
+    unfold loadLemma
+    simp only [kids, children_elem, name_elem, pronTagKids_tags, pronTagKids_prons _ _ _ h2, tags_roundtrip, prons_roundtrip prons h1,
+      bind, Except.bind, pure, Except.pure]
+    rfl
+  | false =>
+    simp only [Bool.false_eq_true, if_false] at h3 ⊢
+    unfold loadLemma
+    simp only [kids, children_elem, name_elem, pronTagKids_tags, pronTagKids_prons _ _ _ h2, tags_roundtrip, prons_roundtrip prons h1,
+      bind, Except.bind, pure, Except.pure, reqAttr, attr_elem, lookup_append, lookup_cons,
+      lookup_optAttr_self "script" script h3, lookup_optAttr_ne "writtenForm" "script" _ (by decide),
+      lookup_optAttr_ne "partOfSpeech" "script" _ (by decide)]
+    simp
+
+def NFform (v : String) (f : Form) : Prop :=
+  (∀ p ∈ f.prons, NFpron p) ∧ (atLeast11 v = false → f.prons = [] ∧ f.id = none) ∧
+  (if f.external then f.form = "" ∧ f.script = none ∧ truthy f.id = true else NFopt f.script ∧ NFopt f.id)
+
+theorem loadForm_dumpForm (v : String) (f : Form) (h : NFform v f) : loadForm (dumpForm v f) = .ok f := by
+  obtain ⟨ext, id, form, script, prons, tags⟩ := f
+  obtain ⟨h1, h2, h3⟩ := h
+  simp only at h1 h2 h3
+  unfold dumpForm
+  simp only
+  have hp : atLeast11 v = false → prons = [] := fun hv => (h2 hv).1
+  cases ext with
+  | true =>
+    simp only [if_true] at h3 ⊢
+    obtain ⟨rfl, rfl, hid⟩ := h3
+    have hv : atLeast11 v = true := by
+      cases hv : atLeast11 v with
+      | true => rfl
+      | false => rw [(h2 hv).2] at hid; simp [truthy] at hid
+    have hidn : NFopt id := by
+      intro e; rw [e] at hid; simp [truthy] at hid
+    unfold loadForm
+    simp only [hv, if_true, kids, children_elem, name_elem, pronTagKids_tags, pronTagKids_prons _ _ _ hp, tags_roundtrip, prons_roundtrip prons h1,
+      bind, Except.bind, pure, Except.pure, attr_elem, lookup_optAttr_self "id" id hidn, hid]
+    rfl
+  | false =>
+    simp only [Bool.false_eq_true, if_false] at h3 ⊢
+    obtain ⟨hs, hidn⟩ := h3
+    unfold loadForm
+    cases hv : atLeast11 v with
+    | true =>
+      simp only [if_true, kids, children_elem, name_elem, pronTagKids_tags, pronTagKids_prons _ _ _ hp, tags_roundtrip, prons_roundtrip prons h1,
+        bind, Except.bind, pure, Except.pure, reqAttr, attr_elem, lookup_append, lookup_cons,
+        lookup_optAttr_self "id" id hidn, lookup_optAttr_self "script" script hs,
+        lookup_optAttr_ne "writtenForm" "id" _ (by decide), lookup_optAttr_ne "writtenForm" "script" _ (by decide),
+        lookup_optAttr_ne "script" "id" _ (by decide), lookup_optAttr_ne "id" "script" _ (by decide)]
+      cases id <;> simp
+    | false =>
+      have hid0 : id = none := (h2 hv).2
+      subst hid0
+      simp only [Bool.false_eq_true, if_false, kids, children_elem, name_elem, pronTagKids_tags, pronTagKids_prons _ _ _ hp, tags_roundtrip, prons_roundtrip prons h1,
+        bind, Except.bind, pure, Except.pure, reqAttr, attr_elem, lookup_append, lookup_cons, List.nil_append,
+        lookup_optAttr_self "script" script hs,
+        lookup_optAttr_ne "writtenForm" "script" _ (by decide), lookup_optAttr_ne "id" "script" _ (by decide)]
+      simp
+
+/-! ### senses and frames -/
+
+/-- ids in a space-separated attribute (`subcat`, `members`, `senses`): non-empty, no space -/
+def NFidList (l : List String) : Prop := ∀ s ∈ l, s.toList ≠ [] ∧ ' ' ∉ s.toList
+
+theorem splitCharsAux_word (w : List Char) (hw : ' ' ∉ w) : ∀ (cur rest : List Char),
+    splitCharsAux cur (w ++ rest) = splitCharsAux (w.reverse ++ cur) rest := by
+  induction w with
+  | nil => intro cur rest; rfl
+  | cons c t ih =>
+    intro cur rest
+    have hc : (c == ' ') = false := by
+      have : c ≠ ' ' := fun e => hw (by rw [e]; exact List.mem_cons_self)
+      simpa using this
+    simp only [List.cons_append, splitCharsAux, hc, Bool.false_eq_true, if_false]
+    rw [ih (fun h => hw (List.mem_cons_of_mem _ h))]
+    simp
+
+theorem splitChars_intercalate : ∀ (ws : List (List Char)), ws ≠ [] → (∀ w ∈ ws, ' ' ∉ w) →
+    splitCharsAux [] ([' '].intercalate ws) = ws := by
+  intro ws
+  induction ws with
+  | nil => intro h; exact absurd rfl h
+  | cons w t ih =>
+    intro _ hs
+    cases t with
+    | nil =>
+      have := splitCharsAux_word w (hs w List.mem_cons_self) [] []
+      simp only [List.append_nil] at this
+      simp [List.intercalate, List.intersperse, this, splitCharsAux]
+    | cons w' t' =>
+      have e : [' '].intercalate (w :: w' :: t') = w ++ (' ' :: [' '].intercalate (w' :: t')) := by
+        simp [List.intercalate, List.intersperse]
+      rw [e, splitCharsAux_word w (hs w List.mem_cons_self)]
+      simp only [splitCharsAux, beq_self_eq_true, if_true, List.append_nil, List.reverse_reverse]
+      rw [ih (by simp) (fun x hx => hs x (List.mem_cons_of_mem _ hx))]
+
+/-- `' '.join(xs).split(' ')` gives `xs` back for every list of non-empty, space-free ids -/
+theorem splitSp_joinSp (l : List String) (h : NFidList l) (hne : l.isEmpty = false) : splitSp (joinSp l) = l := by
+  unfold splitSp joinSp
+  rw [String.toList_intercalate]
+  have hl : l.map String.toList ≠ [] := by
+    cases l with
+    | nil => simp at hne
+    | cons _ _ => simp
+  have e : " ".toList = [' '] := by decide
+  rw [e, splitChars_intercalate _ hl (by
+    intro w hw
+    obtain ⟨s, hs, rfl⟩ := List.mem_map.mp hw
+    exact (h s hs).2)]
+  have : (l.map String.toList).filter (fun w => !w.isEmpty) = l.map String.toList := by
+    rw [List.filter_eq_self]
+    intro w hw
+    obtain ⟨s, hs, rfl⟩ := List.mem_map.mp hw
+    have := (h s hs).1
+    cases hh : s.toList with
+    | nil => exact absurd hh this
+    | cons _ _ => rfl
+  rw [this, List.map_map]
+  conv => rhs; rw [← List.map_id l]
+  apply List.map_congr_left
+  intro s _
+  simp [String.ofList_toList]
+
+def NFsense (v : String) (s : Sense) : Prop :=
+  (∀ r ∈ s.relations, NFmeta r.md) ∧ (∀ e ∈ s.examples, NFexample e) ∧ (∀ c ∈ s.counts, NFcount c) ∧
+  (if s.external then s.synset = "" ∧ s.md = none ∧ s.lexicalized = none ∧ s.adjposition = none ∧ s.subcat = []
+   else NFmeta s.md ∧ s.lexicalized ≠ some true ∧ NFopt s.adjposition ∧ NFidList s.subcat ∧ (atLeast11 v = false → s.subcat = []))
+
+def senseKids (s : Sense) : List Xml :=
+  s.relations.map (dumpRel "SenseRelation") ++ s.examples.map dumpExample ++ s.counts.map dumpCount
+
+theorem senseKids_rels (s : Sense) : (senseKids s).filter (fun c => ["SenseRelation"].contains c.name) = s.relations.map (dumpRel "SenseRelation") := by
+  unfold senseKids
+  rw [List.filter_append, List.filter_append, filter_map_all _ _ _ (fun _ _ => by rfl), filter_map_none dumpExample _ _ (fun _ _ => by rfl),
+    filter_map_none dumpCount _ _ (fun _ _ => by rfl)]
+  simp
+theorem senseKids_examples (s : Sense) : (senseKids s).filter (fun c => ["Example"].contains c.name) = s.examples.map dumpExample := by
+  unfold senseKids
+  rw [List.filter_append, List.filter_append, filter_map_none (dumpRel "SenseRelation") _ _ (fun _ _ => by rfl), filter_map_all dumpExample _ _ (fun _ _ => by rfl),
+    filter_map_none dumpCount _ _ (fun _ _ => by rfl)]
+  simp
+theorem senseKids_counts (s : Sense) : (senseKids s).filter (fun c => ["Count"].contains c.name) = s.counts.map dumpCount := by
+  unfold senseKids
+  rw [List.filter_append, List.filter_append, filter_map_none (dumpRel "SenseRelation") _ _ (fun _ _ => by rfl), filter_map_none dumpExample _ _ (fun _ _ => by rfl),
+    filter_map_all dumpCount _ _ (fun _ _ => by rfl)]
+  simp
+
+theorem rels_roundtrip (name : String) (rs : List Relation) (h : ∀ r ∈ rs, NFmeta r.md) : (rs.map (dumpRel name)).mapM loadRel = .ok rs :=
+  mapM_map_ok (dumpRel name) loadRel rs (fun r hr => loadRel_dumpRel name r (h r hr))
+theorem examples_roundtrip (es : List Example) (h : ∀ e ∈ es, NFexample e) : (es.map dumpExample).map loadExample = es :=
+  map_map_id dumpExample loadExample es (fun e he => loadExample_dumpExample e (h e he))
+theorem counts_roundtrip (cs : List Count) (h : ∀ c ∈ cs, NFcount c) : (cs.map dumpCount).mapM loadCount = .ok cs :=
+  mapM_map_ok dumpCount loadCount cs (fun c hc => loadCount_dumpCount c (h c hc))
+
+theorem dumpSense_kids (v : String) (s : Sense) : (dumpSense v s).children = senseKids s := by
+  unfold dumpSense senseKids; split <;> rfl
+
+theorem loadSense_dumpSense (v : String) (s : Sense) (h : NFsense v s) : loadSense (dumpSense v s) = .ok s := by
+  obtain ⟨h1, h2, h3, h4⟩ := h
+  have hk := dumpSense_kids v s
+  unfold loadSense
+  simp only [kids, hk, senseKids_rels, senseKids_examples, senseKids_counts, rels_roundtrip _ _ h1, examples_roundtrip _ h2,
+    counts_roundtrip _ h3, bind, Except.bind, pure, Except.pure]
+  obtain ⟨ext, id, synset, md, relations, examples, counts, lexicalized, adjposition, subcat⟩ := s
+  simp only at h4 ⊢
+  cases ext with
+  | true =>
+    simp only [if_true] at h4
+    obtain ⟨rfl, rfl, rfl, rfl, rfl⟩ := h4
+    simp [dumpSense, name_elem, reqAttr, attr_elem, lookup_cons]
+  | false =>
+    simp only [Bool.false_eq_true, if_false] at h4
+    obtain ⟨hm, hl, ha, hs, hv⟩ := h4
+    have hname : (dumpSense v ⟨false, id, synset, md, relations, examples, counts, lexicalized, adjposition, subcat⟩).name = "Sense" := rfl
+    simp only [hname]
+    unfold dumpSense
+    simp only [Bool.false_eq_true, if_false, reqAttr, attr_elem, lookup_append, lookup_cons, metaOf, Xml.attrs,
+      List.filterMap_append, List.filterMap_cons, List.filterMap_nil, pk "id" (by decide), pk "synset" (by decide),
+      lookup_metaAttrs md "lexicalized" (by decide), lookup_metaAttrs md "adjposition" (by decide), lookup_metaAttrs md "subcat" (by decide),
+      filterMap_optAttr_nonmeta "adjposition" adjposition (by decide), lookup_optAttr_self "adjposition" adjposition ha,
+      lookup_optAttr_ne "lexicalized" "adjposition" _ (by decide), lookup_optAttr_ne "subcat" "adjposition" _ (by decide)]
+    have hlex : lexicalized = none ∨ lexicalized = some false := by
+      cases lexicalized with
+      | none => exact Or.inl rfl
+      | some b => cases b; exact Or.inr rfl; exact absurd rfl hl
+    cases hc : (atLeast11 v && !subcat.isEmpty) with
+    | true =>
+      have hne : subcat.isEmpty = false := by simp at hc; simpa using hc.2
+      have hsp := splitSp_joinSp subcat hs hne
+      rcases hlex with rfl | rfl <;>
+        simp [hc, pk "lexicalized" (by decide), pk "subcat" (by decide), mkMeta_filterMap_metaAttrs md hm, boolAttr, lookup_cons, hsp]
+    | false =>
+      have hsub : subcat = [] := by
+        cases hv' : atLeast11 v with
+        | false => exact hv hv'
+        | true =>
+          rw [hv'] at hc
+          cases subcat with
+          | nil => rfl
+          | cons _ _ => simp at hc
+      subst hsub
+      rcases hlex with rfl | rfl <;>
+        simp [pk "lexicalized" (by decide), mkMeta_filterMap_metaAttrs md hm, boolAttr, lookup_cons]
+
+def NFframe (v : String) (f : Frame) : Prop :=
+  if atLeast11 v then NFopt f.id ∧ f.senses = [] else f.id = none ∧ NFidList f.senses
+
+theorem loadFrame_dumpFrame (v : String) (f : Frame) (h : NFframe v f) : loadFrame (dumpFrame v f) = .ok f := by
+  obtain ⟨id, frame, senses⟩ := f
+  unfold NFframe at h
+  unfold loadFrame dumpFrame
+  simp only [reqAttr, attr_elem, lookup_append, lookup_cons, bind, Except.bind, pure, Except.pure]
+  cases hv : atLeast11 v with
+  | true =>
+    simp only [hv, if_true] at h
+    obtain ⟨hid, rfl⟩ := h
+    cases id with
+    | none => simp [truthy]
+    | some i =>
+      have : i ≠ "" := fun e => hid (by rw [e])
+      simp [truthy, this, optAttr, lookup_cons]
+  | false =>
+    simp only [hv, Bool.false_eq_true, if_false] at h
+    obtain ⟨rfl, hs⟩ := h
+    cases hne : senses.isEmpty with
+    | true =>
+      have : senses = [] := by simpa using hne
+      subst this
+      simp
+    | false =>
+      have hsp := splitSp_joinSp senses hs hne
+      simp [hne, lookup_cons, hsp]
+
+/-! ### entries -/
+
+theorem dumpLemma_name (v : String) (l : Lemma) : (dumpLemma v l).name = "Lemma" ∨ (dumpLemma v l).name = "ExternalLemma" := by
+  unfold dumpLemma; simp only; split <;> simp [name_elem]
+theorem dumpForm_name (v : String) (f : Form) : (dumpForm v f).name = "Form" ∨ (dumpForm v f).name = "ExternalForm" := by
+  unfold dumpForm; simp only; split <;> simp [name_elem]
+theorem dumpSense_name (v : String) (s : Sense) : (dumpSense v s).name = "Sense" ∨ (dumpSense v s).name = "ExternalSense" := by
+  unfold dumpSense; simp only; split <;> simp [name_elem]
+theorem dumpFrame_name (v : String) (f : Frame) : (dumpFrame v f).name = "SyntacticBehaviour" := rfl
+
+def lemmaKids (v : String) (e : Entry) : List Xml := match e.lemma with | some l => [dumpLemma v l] | none => []
+
+def entryKids (v : String) (e : Entry) : List Xml :=
+  lemmaKids v e ++ e.forms.map (dumpForm v) ++ e.senses.map (dumpSense v) ++
+  (if atLeast11 v || e.external then [] else e.frames.map (dumpFrame v))
+
+theorem dumpEntry_kids (v : String) (e : Entry) : (dumpEntry v e).children = entryKids v e := by
+  unfold dumpEntry entryKids lemmaKids
+  cases e.lemma <;> cases he : e.external <;> cases hv : atLeast11 v <;> simp [children_elem]
+
+theorem lemmaKids_filter (v : String) (e : Entry) (names : List String) :
+    (lemmaKids v e).filter (fun c => names.contains c.name) =
+      if names.contains "Lemma" && names.contains "ExternalLemma" then lemmaKids v e
+      else if !names.contains "Lemma" && !names.contains "ExternalLemma" then [] else
+      (lemmaKids v e).filter (fun c => names.contains c.name) := by
+  unfold lemmaKids
+  cases e.lemma with
+  | none => simp
+  | some l =>
+    rcases dumpLemma_name v l with h | h <;> simp only [List.filter_cons, h, List.filter_nil] <;>
+      cases names.contains "Lemma" <;> cases names.contains "ExternalLemma" <;> simp
+
+theorem entryKids_filter (v : String) (e : Entry) (names : List String) (bl bf bs bb : Bool)
+    (hl1 : names.contains "Lemma" = bl) (hl2 : names.contains "ExternalLemma" = bl)
+    (hf1 : names.contains "Form" = bf) (hf2 : names.contains "ExternalForm" = bf)
+    (hs1 : names.contains "Sense" = bs) (hs2 : names.contains "ExternalSense" = bs)
+    (hb : names.contains "SyntacticBehaviour" = bb) :
+    (entryKids v e).filter (fun c => names.contains c.name) =
+      (if bl then lemmaKids v e else []) ++ (if bf then e.forms.map (dumpForm v) else []) ++
+      (if bs then e.senses.map (dumpSense v) else []) ++
+      (if bb then (if atLeast11 v || e.external then [] else e.frames.map (dumpFrame v)) else []) := by
+  unfold entryKids
+  simp only [List.filter_append]
+  congr 1
+  · congr 1
+    · congr 1
+      · rw [lemmaKids_filter, hl1, hl2]; cases bl <;> simp
+      · cases bf
+        · exact filter_map_none _ _ _ (fun f _ => by rcases dumpForm_name v f with h | h <;> rw [h] <;> assumption)
+        · exact filter_map_all _ _ _ (fun f _ => by rcases dumpForm_name v f with h | h <;> rw [h] <;> assumption)
+    · cases bs
+      · exact filter_map_none _ _ _ (fun f _ => by rcases dumpSense_name v f with h | h <;> rw [h] <;> assumption)
+      · exact filter_map_all _ _ _ (fun f _ => by rcases dumpSense_name v f with h | h <;> rw [h] <;> assumption)
+  · split
+    · simp
+    · cases bb
+      · exact filter_map_none _ _ _ (fun f _ => by rw [dumpFrame_name]; exact hb)
+      · exact filter_map_all _ _ _ (fun f _ => by rw [dumpFrame_name]; exact hb)
+
+def NFentry (v : String) (extension : Bool) (e : Entry) : Prop :=
+  (∀ l, e.lemma = some l → NFlemma v l) ∧ (∀ f ∈ e.forms, NFform v f) ∧ (∀ s ∈ e.senses, NFsense v s) ∧
+  (∀ f ∈ e.frames, NFframe v f) ∧
+  (if e.external then extension = true ∧ e.md = none ∧ e.frames = []
+   else e.lemma.isSome = true ∧ NFmeta e.md ∧ (atLeast11 v = true → e.frames = [])) ∧
+  (extension = false → e.forms.any (·.external) = false ∧ e.senses.any (·.external) = false ∧
+    ((e.lemma.map (·.external)).getD false) = false)
+
+theorem forms_roundtrip (v : String) (fs : List Form) (h : ∀ f ∈ fs, NFform v f) : (fs.map (dumpForm v)).mapM loadForm = .ok fs :=
+  mapM_map_ok (dumpForm v) loadForm fs (fun f hf => loadForm_dumpForm v f (h f hf))
+theorem senses_roundtrip (v : String) (ss : List Sense) (h : ∀ s ∈ ss, NFsense v s) : (ss.map (dumpSense v)).mapM loadSense = .ok ss :=
+  mapM_map_ok (dumpSense v) loadSense ss (fun s hs => loadSense_dumpSense v s (h s hs))
+theorem frames_roundtrip (v : String) (fs : List Frame) (h : ∀ f ∈ fs, NFframe v f) : (fs.map (dumpFrame v)).mapM loadFrame = .ok fs :=
+  mapM_map_ok (dumpFrame v) loadFrame fs (fun f hf => loadFrame_dumpFrame v f (h f hf))
+
+theorem loadEntry_dumpEntry (v : String) (extension : Bool) (e : Entry) (h : NFentry v extension e) :
+    loadEntry extension (dumpEntry v e) = .ok e := by
+  obtain ⟨h1, h2, h3, h4, h5, h6⟩ := h
+  have hk := dumpEntry_kids v e
+  unfold loadEntry
+  simp only [kids, hk]
+  rw [entryKids_filter v e ["Lemma", "ExternalLemma"] true false false false (by decide) (by decide) (by decide) (by decide) (by decide) (by decide) (by decide),
+    entryKids_filter v e ["Form", "ExternalForm"] false true false false (by decide) (by decide) (by decide) (by decide) (by decide) (by decide) (by decide),
+    entryKids_filter v e ["Sense", "ExternalSense"] false false true false (by decide) (by decide) (by decide) (by decide) (by decide) (by decide) (by decide),
+    entryKids_filter v e ["SyntacticBehaviour"] false false false true (by decide) (by decide) (by decide) (by decide) (by decide) (by decide) (by decide)]
+  simp only [if_true, Bool.false_eq_true, if_false, List.append_nil, List.nil_append, forms_roundtrip v _ h2, senses_roundtrip v _ h3]
+  obtain ⟨ext, id, md, lemma, forms, senses, frames⟩ := e
+  simp only at h1 h2 h3 h4 h5 h6 ⊢
+  cases ext with
+  | true =>
+    simp only [if_true] at h5
+    obtain ⟨rfl, rfl, rfl⟩ := h5
+    have hname : (dumpEntry v ⟨true, id, none, lemma, forms, senses, []⟩).name = "ExternalLexicalEntry" := rfl
+    simp only [hname, Bool.or_true, if_true, List.mapM_nil]
+    cases lemma with
+    | none =>
+      simp [lemmaKids, dumpEntry, reqAttr, attr_elem, lookup_cons, bind, Except.bind, pure, Except.pure]
+    | some l =>
+      simp [lemmaKids, loadLemma_dumpLemma v l (h1 l rfl), dumpEntry, reqAttr, attr_elem, lookup_cons, bind, Except.bind, pure, Except.pure,
+        Except.map]
+  | false =>
+    simp only [Bool.false_eq_true, if_false] at h5
+    obtain ⟨hl, hm, hfr⟩ := h5
+    have hname : (dumpEntry v ⟨false, id, md, lemma, forms, senses, frames⟩).name = "LexicalEntry" := rfl
+    cases lemma with
+    | none => simp at hl
+    | some l =>
+      have hframes : (if atLeast11 v = true then [] else frames.map (dumpFrame v)).mapM loadFrame = .ok frames := by
+        cases hv : atLeast11 v with
+        | true => rw [hfr hv]; rfl
+        | false => simpa using frames_roundtrip v frames h4
+      have hguard : (!extension && (forms.any (·.external) || senses.any (·.external) || l.external)) = false := by
+        cases extension with
+        | true => rfl
+        | false =>
+          obtain ⟨a, b, c⟩ := h6 rfl
+          simp only [Option.map_some, Option.getD_some] at c
+          simp [a, b, c]
+      simp only [hname, Bool.or_false]
+      simp [hframes, lemmaKids, loadLemma_dumpLemma v l (h1 l rfl), dumpEntry, reqAttr, attr_elem, lookup_append, lookup_cons, bind, Except.bind, pure,
+        Except.pure, Except.map, metaOf, Xml.attrs, List.filterMap_append, pk "id" (by decide), mkMeta_filterMap_metaAttrs md hm, hguard]
+
+/-! ### synsets -/
+
+def iliKids (s : Synset) : List Xml :=
+  if s.external then [] else match s.iliDef with | some d => [Xml.elem "ILIDefinition" (metaAttrs d.md) d.text []] | none => []
+
+def synsetKids (s : Synset) : List Xml :=
+  s.definitions.map dumpDefinition ++ iliKids s ++ s.relations.map (dumpRel "SynsetRelation") ++ s.examples.map dumpExample
+
+theorem dumpSynset_kids (v : String) (s : Synset) : (dumpSynset v s).children = synsetKids s := by
+  unfold dumpSynset synsetKids iliKids
+  cases s.iliDef <;> cases s.external <;> simp [children_elem]
+
+theorem iliKids_filter (s : Synset) (names : List String) :
+    (iliKids s).filter (fun c => names.contains c.name) = if names.contains "ILIDefinition" then iliKids s else [] := by
+  unfold iliKids
+  cases s.external
+  · cases s.iliDef with
+    | none => simp
+    | some d =>
+      simp only [Bool.false_eq_true, if_false, List.filter_cons, List.filter_nil, name_elem]
+      by_cases h : names.contains "ILIDefinition" = true <;> simp [h]
+  · simp
+
+theorem synsetKids_filter (s : Synset) (names : List String) (bd bi br be : Bool)
+    (hd : names.contains "Definition" = bd) (hi : names.contains "ILIDefinition" = bi)
+    (hr : names.contains "SynsetRelation" = br) (he : names.contains "Example" = be) :
+    (synsetKids s).filter (fun c => names.contains c.name) =
+      (if bd then s.definitions.map dumpDefinition else []) ++ (if bi then iliKids s else []) ++
+      (if br then s.relations.map (dumpRel "SynsetRelation") else []) ++ (if be then s.examples.map dumpExample else []) := by
+  unfold synsetKids
+  simp only [List.filter_append]
+  congr 1
+  · congr 1
+    · congr 1
+      · cases bd
+        · exact filter_map_none _ _ _ (fun _ _ => hd)
+        · exact filter_map_all _ _ _ (fun _ _ => hd)
+      · rw [iliKids_filter, hi]
+    · cases br
+      · exact filter_map_none _ _ _ (fun _ _ => hr)
+      · exact filter_map_all _ _ _ (fun _ _ => hr)
+  · cases be
+    · exact filter_map_none _ _ _ (fun _ _ => he)
+    · exact filter_map_all _ _ _ (fun _ _ => he)
+
+def NFsynset (v : String) (extension : Bool) (s : Synset) : Prop :=
+  (∀ d ∈ s.definitions, NFdefinition d) ∧ (∀ r ∈ s.relations, NFmeta r.md) ∧ (∀ e ∈ s.examples, NFexample e) ∧
+  (if s.external then extension = true ∧ s.ili = "" ∧ s.pos = none ∧ s.md = none ∧ s.iliDef = none ∧ s.lexicalized = none ∧
+      s.members = [] ∧ s.lexfile = none
+   else NFopt s.pos ∧ NFmeta s.md ∧ s.lexicalized ≠ some true ∧ (∀ d, s.iliDef = some d → NFmeta d.md) ∧
+     NFidList s.members ∧ NFopt s.lexfile ∧ (atLeast11 v = false → s.members = [] ∧ s.lexfile = none))
+
+theorem definitions_roundtrip (ds : List Definition) (h : ∀ d ∈ ds, NFdefinition d) : (ds.map dumpDefinition).map loadDefinition = ds :=
+  map_map_id dumpDefinition loadDefinition ds (fun d hd => loadDefinition_dumpDefinition d (h d hd))
+
+theorem loadSynset_dumpSynset (v : String) (extension : Bool) (s : Synset) (h : NFsynset v extension s) :
+    loadSynset extension (dumpSynset v s) = .ok s := by
+  obtain ⟨h1, h2, h3, h4⟩ := h
+  have hk := dumpSynset_kids v s
+  unfold loadSynset
+  simp only [kids, hk]
+  rw [synsetKids_filter s ["Definition"] true false false false (by decide) (by decide) (by decide) (by decide),
+    synsetKids_filter s ["SynsetRelation"] false false true false (by decide) (by decide) (by decide) (by decide),
+    synsetKids_filter s ["Example"] false false false true (by decide) (by decide) (by decide) (by decide),
+    synsetKids_filter s ["ILIDefinition"] false true false false (by decide) (by decide) (by decide) (by decide)]
+  simp only [if_true, Bool.false_eq_true, if_false, List.append_nil, List.nil_append, definitions_roundtrip _ h1,
+    rels_roundtrip _ _ h2, examples_roundtrip _ h3]
+  obtain ⟨ext, id, ili, pos, md, iliDef, definitions, relations, examples, lexicalized, members, lexfile⟩ := s
+  simp only at h1 h2 h3 h4 ⊢
+  cases ext with
+  | true =>
+    simp only [if_true] at h4
+    obtain ⟨rfl, rfl, rfl, rfl, rfl, rfl, rfl, rfl⟩ := h4
+    have hname : (dumpSynset v ⟨true, id, "", none, none, none, definitions, relations, examples, none, [], none⟩).name = "ExternalSynset" := rfl
+    simp only [hname]
+    simp [dumpSynset, reqAttr, attr_elem, lookup_cons, bind, Except.bind, pure, Except.pure]
+  | false =>
+    simp only [Bool.false_eq_true, if_false] at h4
+    obtain ⟨hp, hm, hl, hd, hmem, hlf, hv⟩ := h4
+    have hname : (dumpSynset v ⟨false, id, ili, pos, md, iliDef, definitions, relations, examples, lexicalized, members, lexfile⟩).name = "Synset" := rfl
+    have hili : (iliKids ⟨false, id, ili, pos, md, iliDef, definitions, relations, examples, lexicalized, members, lexfile⟩).head?.map
+        (fun d => ({ text := d.text, md := metaOf d } : IliDef)) = iliDef := by
+      unfold iliKids
+      cases iliDef with
+      | none => rfl
+      | some d =>
+        simp only [Bool.false_eq_true, if_false, List.head?_cons, Option.map_some, Xml.text, metaOf, Xml.attrs,
+          mkMeta_filterMap_metaAttrs d.md (hd d rfl)]
+    have hlex : lexicalized = none ∨ lexicalized = some false := by
+      cases lexicalized with
+      | none => exact Or.inl rfl
+      | some b => cases b; exact Or.inr rfl; exact absurd rfl hl
+    simp only [hname, hili]
+    unfold dumpSynset
+    simp only [Bool.false_eq_true, if_false, reqAttr, attr_elem, lookup_append, lookup_cons, metaOf, Xml.attrs,
+      List.filterMap_append, List.filterMap_cons, List.filterMap_nil, pk "id" (by decide), pk "ili" (by decide),
+      filterMap_optAttr_nonmeta "partOfSpeech" pos (by decide), lookup_optAttr_self "partOfSpeech" pos hp,
+      lookup_optAttr_ne "lexicalized" "partOfSpeech" _ (by decide), lookup_optAttr_ne "members" "partOfSpeech" _ (by decide),
+      lookup_optAttr_ne "lexfile" "partOfSpeech" _ (by decide),
+      lookup_metaAttrs md "lexicalized" (by decide), lookup_metaAttrs md "members" (by decide), lookup_metaAttrs md "lexfile" (by decide),
+      lookup_metaAttrs md "partOfSpeech" (by decide)]
+    cases hv' : atLeast11 v with
+    | false =>
+      obtain ⟨rfl, rfl⟩ := hv hv'
+      rcases hlex with rfl | rfl <;>
+        simp [pk "lexicalized" (by decide), mkMeta_filterMap_metaAttrs md hm, boolAttr, lookup_cons, bind, Except.bind, pure, Except.pure]
+    | true =>
+      cases hne : members.isEmpty with
+      | true =>
+        have : members = [] := by simpa using hne
+        subst this
+        rcases hlex with rfl | rfl <;>
+          simp [pk "lexicalized" (by decide), mkMeta_filterMap_metaAttrs md hm, boolAttr, lookup_cons, bind, Except.bind, pure, Except.pure,
+            lookup_append, lookup_optAttr_self "lexfile" lexfile hlf, filterMap_optAttr_nonmeta "lexfile" lexfile (by decide),
+            lookup_optAttr_ne "lexicalized" "lexfile" _ (by decide), lookup_optAttr_ne "members" "lexfile" _ (by decide),
+            lookup_optAttr_ne "partOfSpeech" "lexfile" _ (by decide)]
+      | false =>
+        have hsp := splitSp_joinSp members hmem hne
+        rcases hlex with rfl | rfl <;>
+          simp [hne, pk "lexicalized" (by decide), pk "members" (by decide), mkMeta_filterMap_metaAttrs md hm, boolAttr, lookup_cons, bind, Except.bind, pure, Except.pure,
+            lookup_append, lookup_optAttr_self "lexfile" lexfile hlf, filterMap_optAttr_nonmeta "lexfile" lexfile (by decide),
+            lookup_optAttr_ne "lexicalized" "lexfile" _ (by decide), lookup_optAttr_ne "members" "lexfile" _ (by decide),
+            lookup_optAttr_ne "partOfSpeech" "lexfile" _ (by decide), hsp]
+
+/-! ### lexicons and the resource -/
+
+theorem dumpEntry_name (v : String) (e : Entry) : (dumpEntry v e).name = "LexicalEntry" ∨ (dumpEntry v e).name = "ExternalLexicalEntry" := by
+  unfold dumpEntry; split <;> simp [name_elem]
+theorem dumpSynset_name (v : String) (s : Synset) : (dumpSynset v s).name = "Synset" ∨ (dumpSynset v s).name = "ExternalSynset" := by
+  unfold dumpSynset; split <;> simp [name_elem]
+
+def extKids (l : Lexicon) : List Xml := match l.ext with | some d => [dumpDep "Extends" d] | none => []
+
+def lexKids (v : String) (l : Lexicon) : List Xml :=
+  (if atLeast11 v then extKids l ++ l.requires.map (dumpDep "Requires") else []) ++
+  l.entries.map (dumpEntry v) ++ l.synsets.map (dumpSynset v) ++ (if atLeast11 v then l.frames.map (dumpFrame v) else [])
+
+theorem dumpLexicon_kids (v : String) (l : Lexicon) : (dumpLexicon v l).children = lexKids v l := by
+  rfl
+
+theorem extKids_filter (l : Lexicon) (names : List String) :
+    (extKids l).filter (fun c => names.contains c.name) = if names.contains "Extends" then extKids l else [] := by
+  unfold extKids
+  cases l.ext with
+  | none => simp
+  | some d =>
+    have : (dumpDep "Extends" d).name = "Extends" := rfl
+    simp only [List.filter_cons, List.filter_nil, this]
+
+theorem lexKids_filter (v : String) (l : Lexicon) (names : List String) (bx br be bs bf : Bool)
+    (hx : names.contains "Extends" = bx) (hr : names.contains "Requires" = br)
+    (he1 : names.contains "LexicalEntry" = be) (he2 : names.contains "ExternalLexicalEntry" = be)
+    (hs1 : names.contains "Synset" = bs) (hs2 : names.contains "ExternalSynset" = bs)
+    (hf : names.contains "SyntacticBehaviour" = bf) :
+    (lexKids v l).filter (fun c => names.contains c.name) =
+      (if atLeast11 v then (if bx then extKids l else []) ++ (if br then l.requires.map (dumpDep "Requires") else []) else []) ++
+      (if be then l.entries.map (dumpEntry v) else []) ++ (if bs then l.synsets.map (dumpSynset v) else []) ++
+      (if bf && atLeast11 v then l.frames.map (dumpFrame v) else []) := by
+  unfold lexKids
+  simp only [List.filter_append]
+  congr 1
+  · congr 1
+    · congr 1
+      · cases atLeast11 v
+        · simp
+        · simp only [if_true, List.filter_append]
+          congr 1
+          · rw [extKids_filter, hx]
+          · cases br
+            · exact filter_map_none _ _ _ (fun _ _ => hr)
+            · exact filter_map_all _ _ _ (fun _ _ => hr)
+      · cases be
+        · exact filter_map_none _ _ _ (fun e _ => by rcases dumpEntry_name v e with h | h <;> rw [h] <;> assumption)
+        · exact filter_map_all _ _ _ (fun e _ => by rcases dumpEntry_name v e with h | h <;> rw [h] <;> assumption)
+    · cases bs
+      · exact filter_map_none _ _ _ (fun e _ => by rcases dumpSynset_name v e with h | h <;> rw [h] <;> assumption)
+      · exact filter_map_all _ _ _ (fun e _ => by rcases dumpSynset_name v e with h | h <;> rw [h] <;> assumption)
+  · cases atLeast11 v
+    · simp
+    · cases bf
+      · simpa using filter_map_none (dumpFrame v) names l.frames (fun _ _ => hf)
+      · simpa using filter_map_all (dumpFrame v) names l.frames (fun _ _ => hf)
+
+def NFlexicon (v : String) (l : Lexicon) : Prop :=
+  NFopt l.url ∧ NFopt l.citation ∧ NFopt l.logo ∧ NFmeta l.md ∧ (∀ d, l.ext = some d → NFdep d) ∧
+  (∀ d ∈ l.requires, NFdep d) ∧ (∀ e ∈ l.entries, NFentry v l.ext.isSome e) ∧ (∀ s ∈ l.synsets, NFsynset v l.ext.isSome s) ∧
+  (∀ f ∈ l.frames, NFframe v f) ∧
+  (atLeast11 v = false → l.ext = none ∧ l.requires = [] ∧ l.logo = none ∧ l.frames = [])
+
+theorem deps_roundtrip (name : String) (ds : List Dep) (h : ∀ d ∈ ds, NFdep d) : (ds.map (dumpDep name)).mapM loadDep = .ok ds :=
+  mapM_map_ok (dumpDep name) loadDep ds (fun d hd => loadDep_dumpDep name d (h d hd))
+theorem entries_roundtrip (v : String) (x : Bool) (es : List Entry) (h : ∀ e ∈ es, NFentry v x e) :
+    (es.map (dumpEntry v)).mapM (loadEntry x) = .ok es :=
+  mapM_map_ok (dumpEntry v) (loadEntry x) es (fun e he => loadEntry_dumpEntry v x e (h e he))
+theorem synsets_roundtrip (v : String) (x : Bool) (ss : List Synset) (h : ∀ s ∈ ss, NFsynset v x s) :
+    (ss.map (dumpSynset v)).mapM (loadSynset x) = .ok ss :=
+  mapM_map_ok (dumpSynset v) (loadSynset x) ss (fun s hs => loadSynset_dumpSynset v x s (h s hs))
+
+theorem dumpLexicon_attrs (v : String) (l : Lexicon) (hu : NFopt l.url) (hc : NFopt l.citation) (hlg : NFopt l.logo) (hm : NFmeta l.md)
+    (hv : atLeast11 v = false → l.logo = none) :
+    attr (dumpLexicon v l) "id" = some l.id ∧ attr (dumpLexicon v l) "version" = some l.version ∧
+    attr (dumpLexicon v l) "label" = some l.label ∧ attr (dumpLexicon v l) "language" = some l.language ∧
+    attr (dumpLexicon v l) "email" = some l.email ∧ attr (dumpLexicon v l) "license" = some l.license ∧
+    attr (dumpLexicon v l) "url" = l.url ∧ attr (dumpLexicon v l) "citation" = l.citation ∧
+    attr (dumpLexicon v l) "logo" = l.logo ∧ metaOf (dumpLexicon v l) = l.md := by
+  obtain ⟨id, version, label, language, email, license, url, citation, logo, md, ext, requires, entries, synsets, frames⟩ := l
+  simp only at hu hc hlg hm hv ⊢
+  have hmeta : ∀ (L : List (String × String)), L.filterMap metaPick = [] →
+      mkMeta (([("id", id), ("label", label), ("language", language), ("email", email), ("license", license), ("version", version)] ++
+        optAttr "url" url ++ optAttr "citation" citation ++ L ++ metaAttrs md).filterMap metaPick) = md := by
+    intro L hL
+    simp only [List.filterMap_append, List.filterMap_cons, List.filterMap_nil, pk "id" (by decide), pk "label" (by decide),
+      pk "language" (by decide), pk "email" (by decide), pk "license" (by decide), pk "version" (by decide),
+      filterMap_optAttr_nonmeta "url" url (by decide), filterMap_optAttr_nonmeta "citation" citation (by decide), List.nil_append, hL]
+    exact mkMeta_filterMap_metaAttrs md hm
+  unfold dumpLexicon
+  cases hv' : atLeast11 v with
+  | false =>
+    have := hv hv'; subst this
+    simp only [Bool.false_eq_true, if_false, attr_elem, lookup_append, lookup_cons, metaOf, Xml.attrs, hmeta [] rfl,
+      lookup_optAttr_self "url" url hu, lookup_optAttr_self "citation" citation hc,
+      lookup_optAttr_ne "url" "citation" _ (by decide), lookup_optAttr_ne "citation" "url" _ (by decide),
+      lookup_optAttr_ne "logo" "url" _ (by decide), lookup_optAttr_ne "logo" "citation" _ (by decide),
+      lookup_optAttr_ne "id" "url" _ (by decide), lookup_optAttr_ne "id" "citation" _ (by decide),
+      lookup_metaAttrs md "url" (by decide), lookup_metaAttrs md "citation" (by decide), lookup_metaAttrs md "logo" (by decide)]
+    simp
+  | true =>
+    have hL : (optAttr "logo" logo).filterMap metaPick = [] := filterMap_optAttr_nonmeta "logo" logo (by decide)
+    simp only [if_true, attr_elem, lookup_append, lookup_cons, metaOf, Xml.attrs, hmeta _ hL,
+      lookup_optAttr_self "url" url hu, lookup_optAttr_self "citation" citation hc, lookup_optAttr_self "logo" logo hlg,
+      lookup_optAttr_ne "url" "citation" _ (by decide), lookup_optAttr_ne "citation" "url" _ (by decide),
+      lookup_optAttr_ne "logo" "url" _ (by decide), lookup_optAttr_ne "logo" "citation" _ (by decide),
+      lookup_optAttr_ne "url" "logo" _ (by decide), lookup_optAttr_ne "citation" "logo" _ (by decide),
+      lookup_metaAttrs md "url" (by decide), lookup_metaAttrs md "citation" (by decide), lookup_metaAttrs md "logo" (by decide)]
+    simp
+
+theorem loadLexicon_dumpLexicon (v : String) (l : Lexicon) (h : NFlexicon v l) : loadLexicon (dumpLexicon v l) = .ok l := by
+  obtain ⟨hu, hc, hlg, hm, hx, hr, he, hs, hf, hv⟩ := h
+  have hk := dumpLexicon_kids v l
+  obtain ⟨a1, a2, a3, a4, a5, a6, a7, a8, a9, a10⟩ := dumpLexicon_attrs v l hu hc hlg hm (fun h => (hv h).2.2.1)
+  unfold loadLexicon
+  simp only [kids, hk, reqAttr, a1, a2, a3, a4, a5, a6, a7, a8, a9, a10]
+  rw [lexKids_filter v l ["Extends"] true false false false false (by decide) (by decide) (by decide) (by decide) (by decide) (by decide) (by decide),
+    lexKids_filter v l ["Requires"] false true false false false (by decide) (by decide) (by decide) (by decide) (by decide) (by decide) (by decide),
+    lexKids_filter v l ["LexicalEntry", "ExternalLexicalEntry"] false false true false false (by decide) (by decide) (by decide) (by decide) (by decide) (by decide) (by decide),
+    lexKids_filter v l ["Synset", "ExternalSynset"] false false false true false (by decide) (by decide) (by decide) (by decide) (by decide) (by decide) (by decide),
+    lexKids_filter v l ["SyntacticBehaviour"] false false false false true (by decide) (by decide) (by decide) (by decide) (by decide) (by decide) (by decide)]
+  obtain ⟨id, version, label, language, email, license, url, citation, logo, md, ext, requires, entries, synsets, frames⟩ := l
+  simp only at hu hc hlg hm hx hr he hs hf hv ⊢
+  have hE : ∀ b, b = ext.isSome → List.mapM (loadEntry b ∘ dumpEntry v) entries = .ok entries := by
+    intro b hb; subst hb; simpa using entries_roundtrip v _ entries he
+  have hS : ∀ b, b = ext.isSome → List.mapM (loadSynset b ∘ dumpSynset v) synsets = .ok synsets := by
+    intro b hb; subst hb; simpa using synsets_roundtrip v _ synsets hs
+  cases hv' : atLeast11 v with
+  | false =>
+    obtain ⟨rfl, rfl, rfl, rfl⟩ := hv hv'
+    simp [hE false rfl, hS false rfl, bind, Except.bind, pure, Except.pure]
+  | true =>
+    have hR : List.mapM (loadDep ∘ dumpDep "Requires") requires = .ok requires := by simpa using deps_roundtrip "Requires" requires hr
+    have hF : List.mapM (loadFrame ∘ dumpFrame v) frames = .ok frames := by simpa using frames_roundtrip v frames hf
+    cases ext with
+    | none => simp [extKids, hE false rfl, hS false rfl, hR, hF, bind, Except.bind, pure, Except.pure]
+    | some d => simp [extKids, loadDep_dumpDep "Extends" d (hx d rfl), Except.map, hE true rfl, hS true rfl, hR, hF, bind, Except.bind, pure, Except.pure]
+
+/-! ### every dumped tree passes the loader's structural checks -/
+
+theorem allOk_append (v : String) : ∀ (a b : List Xml), allOk v (a ++ b) = (allOk v a && allOk v b) := by
+  intro a
+  induction a with
+  | nil => intro b; simp [allOk]
+  | cons x t ih => intro b; simp [allOk, ih, Bool.and_assoc]
+
+theorem allOk_map {α} (v : String) (f : α → Xml) : ∀ (l : List α), (∀ a ∈ l, treeOk v (f a) = true) → allOk v (l.map f) = true := by
+  intro l
+  induction l with
+  | nil => intro _; rfl
+  | cons a t ih =>
+    intro h
+    simp only [List.map_cons, allOk, Bool.and_eq_true]
+    exact ⟨h a List.mem_cons_self, ih (fun x hx => h x (List.mem_cons_of_mem _ hx))⟩
+
+theorem valid_both (v n : String) (h : elems10.contains n = true) : (validElems v).contains n = true := by
+  unfold validElems
+  split
+  · exact h
+  · unfold elems11
+    simp only [List.contains_iff_mem, List.mem_append] at h ⊢
+    exact Or.inl h
+
+theorem valid_11 (v n : String) (hv : atLeast11 v = true) (h : elems11.contains n = true) : (validElems v).contains n = true := by
+  unfold validElems
+  have : (v == "1.0") = false := by
+    unfold atLeast11 at hv
+    simpa using hv
+  simp [this]
+  simpa using h
+
+/-- children without single-valued elements -/
+theorem childrenOk_plain (v : String) (cs : List Xml) (hval : ∀ c ∈ cs, (validElems v).contains c.name = true)
+    (hs : ∀ c ∈ cs, singleValued c.name = false) : childrenOk v cs = true := by
+  unfold childrenOk
+  simp only [Bool.and_eq_true, List.all_eq_true]
+  refine ⟨hval, ?_⟩
+  have : cs.filter (fun c => singleValued c.name) = [] := by
+    rw [List.filter_eq_nil_iff]; intro c hc; simp [hs c hc]
+  rw [this]; rfl
+
+/-- one optional single-valued child in front of plain children -/
+theorem childrenOk_one (v : String) (x : List Xml) (cs : List Xml) (hx : x.length ≤ 1)
+    (hval : ∀ c ∈ x ++ cs, (validElems v).contains c.name = true)
+    (hs : ∀ c ∈ cs, singleValued c.name = false) : childrenOk v (x ++ cs) = true := by
+  unfold childrenOk
+  simp only [Bool.and_eq_true, List.all_eq_true]
+  refine ⟨hval, ?_⟩
+  have : cs.filter (fun c => singleValued c.name) = [] := by
+    rw [List.filter_eq_nil_iff]; intro c hc; simp [hs c hc]
+  rw [List.filter_append, this, List.append_nil]
+  match x, hx with
+  | [], _ => rfl
+  | [a], _ => simp only [List.filter_cons]; split <;> rfl
+
+theorem leaf_ok (v n : String) (a : List (String × String)) (t : String) : treeOk v (.elem n a t []) = true := by
+  simp [treeOk, childrenOk, allOk, nodupB]
+
+theorem pronTagKids_ok (v : String) (ps : List Pron) (ts : List Tag) :
+    childrenOk v (pronTagKids v ps ts) = true ∧ allOk v (pronTagKids v ps ts) = true := by
+  constructor
+  · apply childrenOk_plain
+    · intro c hc
+      unfold pronTagKids at hc
+      rcases List.mem_append.mp hc with hc | hc
+      · cases hv : atLeast11 v with
+        | false => simp [hv] at hc
+        | true =>
+          simp only [hv, if_true] at hc
+          obtain ⟨p, _, rfl⟩ := List.mem_map.mp hc
+          exact valid_11 v "Pronunciation" hv (by decide)
+      · obtain ⟨t, _, rfl⟩ := List.mem_map.mp hc
+        exact valid_both v "Tag" (by decide)
+    · intro c hc
+      unfold pronTagKids at hc
+      rcases List.mem_append.mp hc with hc | hc
+      · split at hc
+        · obtain ⟨p, _, rfl⟩ := List.mem_map.mp hc; rfl
+        · simp at hc
+      · obtain ⟨t, _, rfl⟩ := List.mem_map.mp hc; rfl
+  · unfold pronTagKids
+    rw [allOk_append]
+    simp only [Bool.and_eq_true]
+    constructor
+    · split
+      · exact allOk_map v _ _ (fun p _ => leaf_ok v _ _ _)
+      · rfl
+    · exact allOk_map v _ _ (fun t _ => leaf_ok v _ _ _)
+
+theorem dumpLemma_ok (v : String) (l : Lemma) : treeOk v (dumpLemma v l) = true := by
+  unfold dumpLemma
+  simp only
+  split <;> simp [treeOk, pronTagKids_ok v l.prons l.tags]
+
+theorem dumpForm_ok (v : String) (f : Form) : treeOk v (dumpForm v f) = true := by
+  unfold dumpForm
+  simp only
+  split <;> simp [treeOk, pronTagKids_ok v f.prons f.tags]
+
+theorem senseKids_ok (v : String) (s : Sense) : childrenOk v (senseKids s) = true ∧ allOk v (senseKids s) = true := by
+  constructor
+  · apply childrenOk_plain
+    · intro c hc
+      unfold senseKids at hc
+      simp only [List.mem_append, List.mem_map] at hc
+      rcases hc with (⟨_, _, rfl⟩ | ⟨_, _, rfl⟩) | ⟨_, _, rfl⟩
+      · exact valid_both v "SenseRelation" (by decide)
+      · exact valid_both v "Example" (by decide)
+      · exact valid_both v "Count" (by decide)
+    · intro c hc
+      unfold senseKids at hc
+      simp only [List.mem_append, List.mem_map] at hc
+      rcases hc with (⟨_, _, rfl⟩ | ⟨_, _, rfl⟩) | ⟨_, _, rfl⟩ <;> rfl
+  · unfold senseKids
+    simp only [allOk_append, Bool.and_eq_true]
+    exact ⟨⟨allOk_map v _ _ (fun _ _ => leaf_ok v _ _ _), allOk_map v _ _ (fun _ _ => leaf_ok v _ _ _)⟩,
+      allOk_map v _ _ (fun _ _ => leaf_ok v _ _ _)⟩
+
+theorem treeOk_of_children (v : String) (x : Xml) (h1 : childrenOk v x.children = true) (h2 : allOk v x.children = true) : treeOk v x = true := by
+  cases x with
+  | elem n a t cs => simp only [treeOk, Bool.and_eq_true]; exact ⟨h1, h2⟩
+
+theorem dumpSense_ok (v : String) (s : Sense) : treeOk v (dumpSense v s) = true := by
+  apply treeOk_of_children
+  · rw [dumpSense_kids]; exact (senseKids_ok v s).1
+  · rw [dumpSense_kids]; exact (senseKids_ok v s).2
+
+theorem dumpLemma_valid (v : String) (l : Lemma) (h : atLeast11 v = false → l.external = false) :
+    (validElems v).contains (dumpLemma v l).name = true := by
+  unfold dumpLemma
+  simp only
+  cases he : l.external with
+  | false => exact valid_both v "Lemma" (by decide)
+  | true =>
+    have hv : atLeast11 v = true := by
+      cases hv : atLeast11 v with
+      | true => rfl
+      | false => rw [h hv] at he; cases he
+    exact valid_11 v "ExternalLemma" hv (by decide)
+
+theorem dumpForm_valid (v : String) (f : Form) (h : atLeast11 v = false → f.external = false) :
+    (validElems v).contains (dumpForm v f).name = true := by
+  unfold dumpForm
+  simp only
+  cases he : f.external with
+  | false => exact valid_both v "Form" (by decide)
+  | true =>
+    have hv : atLeast11 v = true := by
+      cases hv : atLeast11 v with
+      | true => rfl
+      | false => rw [h hv] at he; cases he
+    exact valid_11 v "ExternalForm" hv (by decide)
+
+theorem dumpSense_valid (v : String) (s : Sense) (h : atLeast11 v = false → s.external = false) :
+    (validElems v).contains (dumpSense v s).name = true := by
+  unfold dumpSense
+  simp only
+  cases he : s.external with
+  | false => exact valid_both v "Sense" (by decide)
+  | true =>
+    have hv : atLeast11 v = true := by
+      cases hv : atLeast11 v with
+      | true => rfl
+      | false => rw [h hv] at he; cases he
+    exact valid_11 v "ExternalSense" hv (by decide)
+
+theorem dumpEntry_valid (v : String) (e : Entry) (h : atLeast11 v = false → e.external = false) :
+    (validElems v).contains (dumpEntry v e).name = true := by
+  unfold dumpEntry
+  cases he : e.external with
+  | false => exact valid_both v "LexicalEntry" (by decide)
+  | true =>
+    have hv : atLeast11 v = true := by
+      cases hv : atLeast11 v with
+      | true => rfl
+      | false => rw [h hv] at he; cases he
+    exact valid_11 v "ExternalLexicalEntry" hv (by decide)
+
+theorem dumpSynset_valid (v : String) (s : Synset) (h : atLeast11 v = false → s.external = false) :
+    (validElems v).contains (dumpSynset v s).name = true := by
+  unfold dumpSynset
+  cases he : s.external with
+  | false => exact valid_both v "Synset" (by decide)
+  | true =>
+    have hv : atLeast11 v = true := by
+      cases hv : atLeast11 v with
+      | true => rfl
+      | false => rw [h hv] at he; cases he
+    exact valid_11 v "ExternalSynset" hv (by decide)
+
+theorem any_false_mem {α} (p : α → Bool) (l : List α) (h : l.any p = false) (a : α) (ha : a ∈ l) : p a = false := by
+  cases hp : p a with
+  | false => rfl
+  | true =>
+    have : l.any p = true := List.any_eq_true.mpr ⟨a, ha, hp⟩
+    rw [h] at this; cases this
+
+/-- nothing external in a 1.0 document -/
+def NoExt10 (v : String) (e : Entry) : Prop :=
+  atLeast11 v = false → e.external = false ∧ (∀ l, e.lemma = some l → l.external = false) ∧
+    (∀ f ∈ e.forms, f.external = false) ∧ (∀ s ∈ e.senses, s.external = false)
+
+theorem NFentry_noExt (v : String) (x : Bool) (e : Entry) (h : NFentry v x e) (hx : atLeast11 v = false → x = false) : NoExt10 v e := by
+  intro hv
+  obtain ⟨_, _, _, _, h5, h6⟩ := h
+  have hx' := hx hv
+  subst hx'
+  obtain ⟨a, b, c⟩ := h6 rfl
+  refine ⟨?_, ?_, fun f hf => any_false_mem _ _ a f hf, fun s hs => any_false_mem _ _ b s hs⟩
+  · cases he : e.external with
+    | false => rfl
+    | true => rw [he] at h5; simp at h5
+  · intro l hl; rw [hl] at c; simpa using c
+
+theorem dumpEntry_ok (v : String) (e : Entry) (h : NoExt10 v e) : treeOk v (dumpEntry v e) = true := by
+  apply treeOk_of_children
+  · rw [dumpEntry_kids]
+    unfold entryKids
+    rw [List.append_assoc, List.append_assoc]
+    apply childrenOk_one
+    · unfold lemmaKids; cases e.lemma <;> simp
+    · intro c hc
+      simp only [List.mem_append] at hc
+      rcases hc with hc | hc | hc | hc
+      · unfold lemmaKids at hc
+        cases hl : e.lemma with
+        | none => rw [hl] at hc; simp at hc
+        | some l =>
+          rw [hl] at hc
+          simp at hc; subst hc
+          exact dumpLemma_valid v l (fun hv => (h hv).2.1 l hl)
+      · obtain ⟨f, hf, rfl⟩ := List.mem_map.mp hc
+        exact dumpForm_valid v f (fun hv => (h hv).2.2.1 f hf)
+      · obtain ⟨s, hs, rfl⟩ := List.mem_map.mp hc
+        exact dumpSense_valid v s (fun hv => (h hv).2.2.2 s hs)
+      · split at hc
+        · simp at hc
+        · obtain ⟨f, _, rfl⟩ := List.mem_map.mp hc
+          exact valid_both v "SyntacticBehaviour" (by decide)
+    · intro c hc
+      simp only [List.mem_append] at hc
+      rcases hc with hc | hc | hc
+      · obtain ⟨f, _, rfl⟩ := List.mem_map.mp hc
+        rcases dumpForm_name v f with h | h <;> rw [h] <;> rfl
+      · obtain ⟨f, _, rfl⟩ := List.mem_map.mp hc
+        rcases dumpSense_name v f with h | h <;> rw [h] <;> rfl
+      · split at hc
+        · simp at hc
+        · obtain ⟨f, _, rfl⟩ := List.mem_map.mp hc; rfl
+  · rw [dumpEntry_kids]
+    unfold entryKids
+    simp only [allOk_append, Bool.and_eq_true]
+    refine ⟨⟨⟨?_, allOk_map v _ _ (fun f _ => dumpForm_ok v f)⟩, allOk_map v _ _ (fun s _ => dumpSense_ok v s)⟩, ?_⟩
+    · unfold lemmaKids
+      cases e.lemma with
+      | none => rfl
+      | some l => simp [allOk, dumpLemma_ok]
+    · split
+      · rfl
+      · exact allOk_map v _ _ (fun _ _ => leaf_ok v _ _ _)
+
+theorem dumpSynset_ok (v : String) (s : Synset) : treeOk v (dumpSynset v s) = true := by
+  apply treeOk_of_children
+  · rw [dumpSynset_kids]
+    unfold synsetKids
+    have : s.definitions.map dumpDefinition ++ iliKids s ++ s.relations.map (dumpRel "SynsetRelation") ++ s.examples.map dumpExample =
+        s.definitions.map dumpDefinition ++ (iliKids s ++ (s.relations.map (dumpRel "SynsetRelation") ++ s.examples.map dumpExample)) := by
+      simp [List.append_assoc]
+    rw [this]
+    unfold childrenOk
+    simp only [Bool.and_eq_true, List.all_eq_true]
+    constructor
+    · intro c hc
+      simp only [List.mem_append] at hc
+      rcases hc with hc | hc | hc | hc
+      · obtain ⟨_, _, rfl⟩ := List.mem_map.mp hc; exact valid_both v "Definition" (by decide)
+      · unfold iliKids at hc
+        split at hc
+        · simp at hc
+        · cases hd : s.iliDef with
+          | none => rw [hd] at hc; simp at hc
+          | some d => rw [hd] at hc; simp at hc; subst hc; exact valid_both v "ILIDefinition" (by decide)
+      · obtain ⟨_, _, rfl⟩ := List.mem_map.mp hc; exact valid_both v "SynsetRelation" (by decide)
+      · obtain ⟨_, _, rfl⟩ := List.mem_map.mp hc; exact valid_both v "Example" (by decide)
+    · simp only [List.filter_append]
+      rw [filter_map_none' dumpDefinition, filter_map_none' (dumpRel "SynsetRelation"), filter_map_none' dumpExample]
+      · simp only [List.nil_append, List.append_nil]
+        unfold iliKids
+        cases s.external
+        · cases s.iliDef <;> simp [nodupB, name_elem, singleValued, keyOf]
+        · simp [nodupB]
+      · intro _ _; rfl
+      · intro _ _; rfl
+      · intro _ _; rfl
+  · rw [dumpSynset_kids]
+    unfold synsetKids
+    simp only [allOk_append, Bool.and_eq_true]
+    refine ⟨⟨⟨allOk_map v _ _ (fun _ _ => leaf_ok v _ _ _), ?_⟩, allOk_map v _ _ (fun _ _ => leaf_ok v _ _ _)⟩,
+      allOk_map v _ _ (fun _ _ => leaf_ok v _ _ _)⟩
+    unfold iliKids
+    cases s.external
+    · cases s.iliDef <;> simp [allOk, leaf_ok]
+    · rfl
+
+theorem dumpLexicon_name (v : String) (l : Lexicon) :
+    (dumpLexicon v l).name = if l.ext.isSome then "LexiconExtension" else "Lexicon" := rfl
+
+theorem NFsynset_noExt (v : String) (x : Bool) (s : Synset) (h : NFsynset v x s) (hx : atLeast11 v = false → x = false) :
+    atLeast11 v = false → s.external = false := by
+  intro hv
+  obtain ⟨_, _, _, h4⟩ := h
+  cases he : s.external with
+  | false => rfl
+  | true =>
+    rw [he] at h4
+    simp only [if_true] at h4
+    rw [hx hv] at h4
+    exact absurd h4.1 (by decide)
+
+theorem dumpLexicon_ok (v : String) (l : Lexicon) (h : NFlexicon v l) : treeOk v (dumpLexicon v l) = true := by
+  obtain ⟨_, _, _, _, _, _, he, hs, _, hv⟩ := h
+  have hx : atLeast11 v = false → l.ext.isSome = false := fun h => by rw [(hv h).1]; rfl
+  apply treeOk_of_children
+  · rw [dumpLexicon_kids]
+    unfold lexKids childrenOk
+    simp only [Bool.and_eq_true, List.all_eq_true]
+    constructor
+    · intro c hc
+      simp only [List.mem_append] at hc
+      rcases hc with ((hc | hc) | hc) | hc
+      · cases hv' : atLeast11 v with
+        | false => simp [hv'] at hc
+        | true =>
+          simp only [hv', if_true, List.mem_append] at hc
+          rcases hc with hc | hc
+          · unfold extKids at hc
+            cases hd : l.ext with
+            | none => rw [hd] at hc; simp at hc
+            | some d => rw [hd] at hc; simp at hc; subst hc; exact valid_11 v "Extends" hv' (by decide)
+          · obtain ⟨_, _, rfl⟩ := List.mem_map.mp hc; exact valid_11 v "Requires" hv' (by decide)
+      · obtain ⟨e, hm, rfl⟩ := List.mem_map.mp hc
+        exact dumpEntry_valid v e (fun h => (NFentry_noExt v _ e (he e hm) hx h).1)
+      · obtain ⟨s, hm, rfl⟩ := List.mem_map.mp hc
+        exact dumpSynset_valid v s (NFsynset_noExt v _ s (hs s hm) hx)
+      · split at hc
+        · obtain ⟨_, _, rfl⟩ := List.mem_map.mp hc; exact valid_both v "SyntacticBehaviour" (by decide)
+        · simp at hc
+    · simp only [List.filter_append]
+      rw [filter_map_none' (dumpEntry v), filter_map_none' (dumpSynset v)]
+      · have hf : (if atLeast11 v = true then l.frames.map (dumpFrame v) else []).filter (fun c => singleValued c.name) = [] := by
+          split
+          · exact filter_map_none' _ _ _ (fun _ _ => rfl)
+          · rfl
+        rw [hf]
+        simp only [List.append_nil]
+        cases atLeast11 v
+        · simp [nodupB]
+        · simp only [if_true, List.filter_append]
+          rw [filter_map_none' (dumpDep "Requires") _ _ (fun _ _ => rfl)]
+          unfold extKids
+          cases l.ext <;> simp [nodupB, dumpDep, name_elem, singleValued, keyOf]
+      · intro s _; rcases dumpSynset_name v s with h | h <;> rw [h] <;> rfl
+      · intro e _; rcases dumpEntry_name v e with h | h <;> rw [h] <;> rfl
+  · rw [dumpLexicon_kids]
+    unfold lexKids
+    simp only [allOk_append, Bool.and_eq_true]
+    refine ⟨⟨⟨?_, allOk_map v _ _ (fun e hm => dumpEntry_ok v e (NFentry_noExt v _ e (he e hm) hx))⟩,
+      allOk_map v _ _ (fun s _ => dumpSynset_ok v s)⟩, ?_⟩
+    · split
+      · rw [allOk_append]
+        simp only [Bool.and_eq_true]
+        refine ⟨?_, allOk_map v _ _ (fun _ _ => leaf_ok v _ _ _)⟩
+        unfold extKids
+        cases l.ext with
+        | none => rfl
+        | some d => simp [allOk, dumpDep, leaf_ok]
+      · rfl
+    · split
+      · exact allOk_map v _ _ (fun _ _ => leaf_ok v _ _ _)
+      · rfl
+
+/-- the loader's normal form of a whole resource -/
+def NFresource (r : Resource) : Prop := ∀ l ∈ r.lexicons, NFlexicon r.version l
+
+theorem dumpTree_ok (r : Resource) (h : NFresource r) : treeOk r.version (.elem "" [] "" [dumpTree r]) = true := by
+  have htree : treeOk r.version (dumpTree r) = true := by
+    unfold dumpTree
+    simp only [treeOk, Bool.and_eq_true]
+    constructor
+    · apply childrenOk_plain
+      · intro c hc
+        obtain ⟨l, hl, rfl⟩ := List.mem_map.mp hc
+        rw [dumpLexicon_name]
+        cases hx : l.ext.isSome with
+        | false => exact valid_both _ "Lexicon" (by decide)
+        | true =>
+          have hv : atLeast11 r.version = true := by
+            cases hv : atLeast11 r.version with
+            | true => rfl
+            | false =>
+              have := ((h l hl).2.2.2.2.2.2.2.2.2 hv).1
+              rw [this] at hx; cases hx
+          exact valid_11 _ "LexiconExtension" hv (by decide)
+      · intro c hc
+        obtain ⟨l, _, rfl⟩ := List.mem_map.mp hc
+        rw [dumpLexicon_name]
+        split <;> rfl
+    · exact allOk_map _ _ _ (fun l hl => dumpLexicon_ok _ l (h l hl))
+  simp only [treeOk, allOk, htree, Bool.and_true]
+  unfold childrenOk
+  simp only [Bool.and_eq_true, List.all_eq_true]
+  constructor
+  · intro c hc
+    simp at hc; subst hc
+    exact valid_both _ "LexicalResource" (by decide)
+  · simp [dumpTree, name_elem, singleValued, keyOf, nodupB]
+
+/-- **C02 (tree level)**: loading what was dumped gives back the resource, for every LMF version,
+every resource in normal form, with no bound on the number of lexicons, entries, forms, senses,
+synsets, relations, examples or metadata keys -/
+theorem C02_load_dump (r : Resource) (h : NFresource r) : loadTree r.version (dumpTree r) = .ok r := by
+  have hok := dumpTree_ok r h
+  unfold loadTree
+  have hname : (dumpTree r).name = "LexicalResource" := rfl
+  simp only [hname, bne_self_eq_false, Bool.false_eq_true, if_false, hok, Bool.not_true]
+  have hkids : kids (dumpTree r) ["Lexicon", "LexiconExtension"] = r.lexicons.map (dumpLexicon r.version) := by
+    unfold kids dumpTree
+    simp only [children_elem]
+    apply filter_map_all
+    intro l _
+    rw [dumpLexicon_name]
+    split <;> rfl
+  rw [hkids, mapM_map_ok (dumpLexicon r.version) loadLexicon r.lexicons (fun l hl => loadLexicon_dumpLexicon _ l (h l hl))]
+  rfl
+
+/-- consequently dump ∘ load ∘ dump = dump on trees (the byte-level fixed point modulo the printer) -/
+theorem C02_fixed_point (r : Resource) (h : NFresource r) :
+    (loadTree r.version (dumpTree r)).map dumpTree = .ok (dumpTree r) := by
+  rw [C02_load_dump r h]; rfl
+
+/-! ### non-vacuity: a resource with an extension, metadata, members, subcat satisfies the hypotheses -/
+
+def demoBase : Lexicon :=
+  { id := "a", version := "1", label := "A <&> \"q\"", language := "en", email := "e", license := "l", url := some "http://a",
+    md := some [("publisher", "p"), ("note", "n"), ("confidenceScore", "0.9")],
+    requires := [⟨"b", "2", some "http://b"⟩],
+    entries := [{ id := "e1", md := some [("note", "x")],
+                  lemma := some { form := "cat", pos := "n", script := some "Latn", prons := [{ text := "kat", phonemic := some false }], tags := [⟨"t", "c"⟩] },
+                  forms := [{ id := some "f1", form := "cats" }],
+                  senses := [{ id := "s1", synset := "y1", lexicalized := some false, adjposition := some "p", subcat := ["fr1", "fr2"],
+                               relations := [⟨"s1", "also", some [("type", "T")]⟩], examples := [⟨"ex", some "en", none⟩],
+                               counts := [⟨3, none⟩] }] }],
+    synsets := [{ id := "y1", ili := "in", pos := some "n", iliDef := some ⟨"def", some [("source", "s")]⟩, members := ["s1"],
+                  lexfile := some "noun.animal", definitions := [⟨"d", some "en", some "s1", none⟩] }],
+    frames := [⟨some "fr1", "F one", []⟩, ⟨some "fr2", "F two", []⟩] }
+
+def demoExt : Lexicon :=
+  { id := "x", version := "1", label := "X", language := "en", email := "e", license := "l", ext := some ⟨"a", "1", none⟩,
+    entries := [{ external := true, id := "e1", lemma := some { external := true, tags := [⟨"t2", "c"⟩] },
+                  forms := [{ external := true, id := some "f1", tags := [⟨"t3", "c"⟩] }, { form := "kitty" }],
+                  senses := [{ external := true, id := "s1", examples := [⟨"more", none, none⟩] }] }],
+    synsets := [{ external := true, id := "y1", definitions := [⟨"d2", none, none, none⟩] }] }
+
+def demo : Resource := { version := "1.3", lexicons := [demoBase, demoExt] }
+
+example : NFresource demo := by
+  intro l hl
+  simp only [demo, List.mem_cons, List.not_mem_nil, or_false] at hl
+  rcases hl with rfl | rfl <;>
+    simp [NFlexicon, NFentry, NFsynset, NFsense, NFlemma, NFform, NFframe, NFexample, NFcount, NFdefinition, NFdep, NFpron, NFopt,
+      NFmeta, NFidList, demoBase, demoExt, demo, atLeast11, truthy, canonMeta, dcKeys, plainMetaKeys, optAttr] <;> decide +kernel
+
 end WnVerif.Props.C02
